@@ -128,6 +128,10 @@ pub fn exec(op: &str, a: &[u64]) -> Result<Outcome, String> {
             let min_kept = it.iter().map(|x| x.1).min().unwrap_or(usize::MAX);
             o.check(counts.iter().all(|(k, f)| it.iter().any(|x| &x.0 == k) || *f <= min_kept), "an omitted token is more frequent than a kept one");
             o.check(d.freq_sum == it.iter().map(|x| x.1).sum::<usize>(), "freq_sum is not the total of the kept frequencies");
+            // the accessors agree with the entries
+            o.check(d.len() == it.len() && d.is_empty() == it.is_empty(), "len() is not the number of entries");
+            o.check(it.iter().all(|(k, f)| d.contains(k) && d.get(k) == Some((*f, *f as f64 / d.freq_sum as f64))), "get(key) is not (frequency, frequency / freq_sum) of the entry");
+            o.check(!d.contains("\u{1}no such key\u{1}") && d.get("\u{1}no such key\u{1}").is_none(), "get / contains find a key that is not an entry");
             for t in [0u8, 1, 4] {
                 if t != threads {
                     match create(&raw, ms, mq, t, mode) {
